@@ -183,3 +183,19 @@ def run(chk, repo):
             G.facts_at(cfg, n_ext).get('orfs') is True
     chk.ob('C08.d', 'ORFs are listed iff peptides of that transcript are added (both after `if not orfs`)', repo.loc(f, loop), okp,
            'orf_pool.extend and the peptide additions are not on the same paths', key=f"{ENTRY}::orfs-with-peptides", fn=f.qual)
+
+    # ---------------------------------------------------------------- e
+    chk.rule('C08.e', 'denylist skip of a start-codon peptide requires BOTH the M-form and the M-removed form to be denylisted', 1)
+    jm = repo.func('svgraph.VariantPeptideDict:MiscleavedNodes.join_miscleaved_peptides')
+    chk.uses(jm)
+    jcfg = CFG(jm.node)
+    # the `continue` right after the denylist test
+    ifs = [n for n in walk_no_nested(jm.node) if isinstance(n, ast.If) and 'is_in_denylist' in unparse(n.test) and G.block_leaves(n.body)]
+    okk = False
+    bad = None
+    if len(ifs) == 1:
+        site = jcfg.node_for(ifs[0].body[0])
+        okk = G.must_at(jcfg, site, 'seq in denylist') and G.must_at(jcfg, site, 'not is_start_codon or seq[1:] in denylist')
+    chk.ob('C08.e', 'skip only if seq in denylist and (not start codon or seq[1:] in denylist)', repo.loc(jm, ifs[0]) if ifs else jm.where, okk,
+           'a start-codon peptide whose M-retaining form is canonical is skipped although its M-removed form is not canonical: that digestion product is lost',
+           key=jm.qual + '::denylist-start-codon', fn=jm.qual)
